@@ -381,11 +381,19 @@ func (e *handlerStore[T]) offAll() {
 }
 
 func (e *handlerStore[T]) getAll() (handlers []T) {
+	subs, handlers := e.take()
+	return append(subs, handlers...)
+}
+
+// Returns the subscriptions of the library itself and the handlers of the user.
+// The handlers registered with `once` are removed from the store.
+func (e *handlerStore[T]) take() (subs []T, handlers []T) {
 	e.mu.Lock()
 	defer e.mu.Unlock()
 
-	handlers = make([]T, 0, len(e.subs)+len(e.funcs)+len(e.funcsOnce))
-	handlers = append(handlers, e.subs...)
+	subs = make([]T, 0, len(e.subs)+len(e.funcs)+len(e.funcsOnce))
+	subs = append(subs, e.subs...)
+	handlers = make([]T, 0, len(e.funcs)+len(e.funcsOnce))
 	handlers = append(handlers, e.funcs...)
 	handlers = append(handlers, e.funcsOnce...)
 	e.funcsOnce = nil
@@ -393,7 +401,18 @@ func (e *handlerStore[T]) getAll() (handlers []T) {
 }
 
 func (e *handlerStore[T]) forEach(f func(handler T), concurrent bool) {
-	handlers := e.getAll()
+	subs, handlers := e.take()
+
+	// The subscriptions of the library itself (a client socket follows the open, error and close events
+	// of its manager) always run here, on the goroutine that reports the event, so that they see the events
+	// in the order in which they happened. On a goroutine per event, the close event of a connection could
+	// reach a socket after the open event of the next connection: the socket, which had already sent its
+	// CONNECT packet on the new connection, was marked as disconnected, ignored the server's answer,
+	// and never connected again although the connection was up.
+	for _, sub := range subs {
+		f(sub)
+	}
+
 	if len(handlers) == 0 {
 		return
 	}
